@@ -946,9 +946,12 @@ class Engine:
                     store, states = self._process_state(path)
                     process_timestep = process.calculate_timestep(states)
 
-                    if force_complete:
-                        # force the process to complete at end_time
-                        future = min(process_time + process_timestep, end_time)
+                    if force_complete and \
+                            process_time + process_timestep > end_time:
+                        # force the process to complete at end_time: it
+                        # only simulates what is left of the interval
+                        process_timestep = end_time - process_time
+                        future = end_time
                     else:
                         future = process_time + process_timestep
                     if self.global_time_precision is not None:
